@@ -212,11 +212,7 @@ fn frontier_inline(f: &FrontierCfg, dir: &Path, idx: &mut usize, files: &mut Vec
         }
         FrontierCfg::Vehicle { rows } => {
             let p = dir.join(format!("vehicle_restrictions_{i}.csv"));
-            let mut s = String::from("edge_id,restriction_name,restriction_value,restriction_unit\n");
-            for (e, n, v, u) in rows {
-                s.push_str(&format!("{e},{n},{v:?},{u}\n"));
-            }
-            files.push((p.clone(), s));
+            files.push((p.clone(), crate::world::vehicle_rows_csv(rows)));
             format!("{{ type = \"vehicle_restriction\", vehicle_restriction_input_file = {} }}", tstr(p.to_str().unwrap_or("")))
         }
         FrontierCfg::Turn { pairs } => {
@@ -478,10 +474,7 @@ pub fn write_config(spec: &AppSpec, dir: &Path) -> std::io::Result<(PathBuf, Str
                 if *vehicle {
                     if let Some(rows) = &spec.matcher_vehicle_rows {
                         let p = dir.join("matcher_vehicle_restrictions.csv");
-                        let mut s = String::from("edge_id,restriction_name,restriction_value,restriction_unit\n");
-                        for (e, n, v, u) in rows {
-                            s.push_str(&format!("{e},{n},{v:?},{u}\n"));
-                        }
+                        let s = crate::world::vehicle_rows_csv(rows);
                         files.push((p.clone(), s));
                         extra.push_str(&format!(", vehicle_restriction_input_file = {}", tstr(p.to_str().unwrap_or(""))));
                     }
